@@ -316,7 +316,41 @@ def with_prior(rng, case):
     return case
 
 
+def gen_options(rng, tier):
+    """RAIRE files whose contest lines carry the optional trailing fields of the format (OPTIONS_AUDIT.md):
+    `...,winner,W,order,<every candidate, in elimination order>` and / or `...,informal,<count>` (both read by
+    load_contests_from_raire: they set Contest.outcome -- a search hint -- and add to Contest.tot_ballots; the audit-side
+    reader skips the contest lines).  The ballots, the candidates and the winner are what they are without them."""
+    for _ in range(40):
+        c = gen_file(rng, tier)
+        n = c["n"]
+        hdr = c["rows"][1:1 + n]
+        if not c["wellformed"] or c["unlisted"] or len(hdr) != len(c["contests"]) or \
+                any(h != ["Contest", cid, str(len(cands))] + list(cands) + ["winner", w] for h, (cid, cands, w) in zip(hdr, c["contests"])):
+            continue
+        for h, (cid, cands, w) in zip(hdr, c["contests"]):
+            r = rng.random()
+            if r < 0.75:
+                perm = [x for x in cands if x != w]
+                rng.shuffle(perm)
+                h += ["order"] + perm + [w]
+            if r >= 0.35:
+                h += ["informal", str(rng.choice([0, 1, 3, 12, 250]))]
+        c["header_opts"] = True
+        return c
+    return gen_file(rng, tier)
+
+
 def gen(rng, n, tier):
+    import hashlib
+    from ..core import Rng
+    opt = Rng(int(hashlib.sha1(("options" + repr(rng.getstate())).encode()).hexdigest()[:15], 16))
+    yield from gen_main(rng, n, tier)
+    for _ in range(max(6, n // 200) if tier == "quick" else max(6, n // 400)):
+        yield gen_options(opt, tier)
+
+
+def gen_main(rng, n, tier):
     count = 0
     top = 4 if tier == "quick" else 5
     sweeps = [NAMES[:nc] for nc in range(1, top + 1)] + [NUMS[:nc] for nc in range(2, 5)]
